@@ -21,5 +21,7 @@
 #define VERIF_SIZE_GUARD(p, bytes) \
     __CPROVER_assert(__CPROVER_OBJECT_SIZE(p) == (size_t)(bytes) && __CPROVER_POINTER_OFFSET(p) == 0, "spec sanity: object size of " #p)
 
+/* R4: `new` never returns NULL (std::bad_alloc paths are out of scope, stated assumption) */
+static inline void *verif_alloc(size_t sz) { void *p = malloc(sz); __CPROVER_assume(p != 0); return p; }
 #define VERIF_NMAX 100000000   /* upper bound on symbolic dimensions (keeps 4*n inside the object-size range); not an unwinding bound */
 #endif
